@@ -202,20 +202,21 @@ def updateLastActivity (d : Daemon) (i : Id) : Daemon :=
       let d2 := d1.remNormal i
       { d2 with normal := i :: d2.normal }
 
-/-- `MHD_set_connection_option (c, MHD_CONNECTION_OPTION_TIMEOUT, s)` -/
+/-- `MHD_set_connection_option (c, MHD_CONNECTION_OPTION_TIMEOUT, s)`:
+    `if (0 == timeout) last_activity = now;` then, unless suspended, remove from the list chosen by the
+    old value, assign, insert into the list chosen by the new value -/
 def setTimeout (v : Variant) (d : Daemon) (i : Id) (s : Nat) : Daemon :=
-  let c0 := d.c i
-  let d0 := if c0.tmo = 0 then d.set i { c0 with la := d.now } else d
-  let c := d0.c i
+  let c := d.c i
+  let la' := if c.tmo = 0 then d.now else c.la
   let newT := s * Mhd.Gen.Tmo.msPerSec
   if c.suspended = false then
-    let d1 := d0.remTimeout i
-    let d2 := d1.set i { c with tmo := newT }
+    let d1 := d.remTimeout i
+    let d2 := d1.set i { c with la := la', tmo := newT }
     if newT = d2.cfg.dtmo then
       { d2 with normal := if v.optSorted then insSorted d2.la d2.normal i else i :: d2.normal }
     else { d2 with manual := i :: d2.manual }
-  else if v.optSusp then d0.set i { c with tmo := newT }
-  else d0
+  else if v.optSusp then d.set i { c with la := la', tmo := newT }
+  else d.set i { c with la := la' }
 
 /-- `internal_suspend_connection_` -/
 def internalSuspend (d : Daemon) (i : Id) : Daemon :=
@@ -234,20 +235,20 @@ def internalSuspend (d : Daemon) (i : Id) : Daemon :=
 def resumeRequest (d : Daemon) (i : Id) : Daemon :=
   { (d.set i { (d.c i) with resuming := true }) with resuming := true }
 
-/-- body of the loop of `resume_suspended_connections` for `pos = i` (no upgrade handles here) -/
+/-- body of the loop of `resume_suspended_connections` for `pos = i` (no upgrade handles here):
+    out of the suspended list, flag cleared, timer restarted, into `connections` and the timeout
+    list that matches, and (epoll) marked ready and queued in `eready` -/
 def resumeOne (d : Daemon) (i : Id) : Daemon :=
   let c := d.c i
   if c.resuming = false then d
   else
     let d1 := d.remSusp i
-    let c1 := { c with suspended := false }
-    let c2 := if c1.tmo ≠ 0 then { c1 with la := d.now } else c1
-    let d2 := { d1 with conns := i :: d1.conns }
-    let d3 := (d2.set i c2).insTimeout i
-    let d4 := if d3.cfg.epoll then
-        { (d3.set i { (d3.c i) with readReady := true }) with eready := i :: d3.eready }
-      else d3
-    d4.set i { (d4.c i) with resuming := false }
+    let la' := if c.tmo ≠ 0 then d.now else c.la
+    let c' := { c with suspended := false, la := la', resuming := false,
+                       readReady := if d.cfg.epoll then true else c.readReady }
+    let d2 := { (d1.set i c') with conns := i :: d1.conns }
+    let d3 := d2.insTimeout i
+    if d.cfg.epoll then { d3 with eready := i :: d3.eready } else d3
 
 /-- `resume_suspended_connections`: from the tail of the suspended list -/
 def resumeSuspended (d : Daemon) : Daemon :=
@@ -262,12 +263,10 @@ def arrive (d : Daemon) (i : Id) : Daemon :=
 /-- `new_connection_process_` -/
 def processOneNew (v : Variant) (d : Daemon) (i : Id) : Daemon :=
   let c := d.c i
-  let d1 := { d with conns := i :: d.conns }
-  let d2 := if v.stampNew ∧ c.tmo ≠ 0 then d1.set i { c with la := d1.now } else d1
-  let d3 := { d2 with normal := i :: d2.normal }
-  if d3.cfg.epoll then
-    { (d3.set i { (d3.c i) with inSet := true }) with kq := d3.kq ++ [i] }
-  else d3
+  let la' := if v.stampNew ∧ c.tmo ≠ 0 then d.now else c.la
+  let c' := { c with la := la', inSet := if d.cfg.epoll then true else c.inSet }
+  let d1 := { (d.set i c') with conns := i :: d.conns, normal := i :: d.normal }
+  if d.cfg.epoll then { d1 with kq := d1.kq ++ [i] } else d1
 
 /-- `new_connections_list_process_`: FIFO, i.e. from the tail of the queue -/
 def processNew (v : Variant) (d : Daemon) : Daemon × List Event :=
